@@ -100,7 +100,7 @@ def run(prop, tier):
             eruns = rnd.sample(eruns, limit)
         jobs += [gen.engine_job(r) for r in eruns]
         engine["runs_replayed"] = len(eruns)
-    pairing = gen.prove_pairing() if prop == "C02" else None   # the pairing loop over unbounded amounts (Apalache, inductive invariant)
+    pairing = gen.prove_pairing() if prop == "C02" else gen.prove_balances() if prop == "C07" else None   # the pairing loop over unbounded amounts (Apalache, inductive invariant)
 
     print(f"[{timer.s():.0f}s] model checking done", file=sys.stderr)
     # (b) spec -> code: run the real rp2 on every generated history
